@@ -613,7 +613,15 @@ def r6_filter_not_stricter(ctx):
     r2_arity_keyword_filter(ctx, strict_extra=True)
 
 
+def r8_rewritten_sites_pass_arguments_intact(ctx):
+    from .rewriter import law_each_argument_once, law_self_first
+
+    law_each_argument_once(ctx)
+    law_self_first(ctx)
+
+
 RULES = [
+    ("C03.R8", "P1", r8_rewritten_sites_pass_arguments_intact, "rewritten recurse/call_next sites pass exactly the arguments written"),
     ("C03.R1", "P1", r1_pure_handover, "pure hand-over"),
     ("C03.R2", "P1", r2_one_name_three_roles, "one name, three roles"),
     ("C03.R3", "P1", r3_early_exits, "early exits forward everything supplied"),
